@@ -1,4 +1,5 @@
 CONSTANTS
+  Marks = {"none", "skip_serializing", "skip_deserializing"}
   Collisions = {"none", "not3", "xy3", "ab4"}
   Spellings = {"after_list", "between_lists", "merged", "split", "split_rev", "apart"}
   Idents = {"UserId", "A", "Foo", "FooBar", "Foo2Bar", "HTTPServer", "IOError", "ID", "URL", "HTTP2", "Init", "Default", "None", "Class", "In", "Self_"}
